@@ -31,6 +31,10 @@ GENERATORS = [
     ('gen_py_loops', 'PyLoops.lean'),
     ('gen_py_parsedisp', 'PyParseDisp.lean'),
     ('gen_py_matchsel', 'PyMatchSel.lean'),
+    ('gen_py_context', 'PyContext.lean'),
+    ('gen_py_attrname', 'PyAttrName.lean'),
+    ('gen_py_anb', 'PyAnB.lean'),
+    ('gen_py_api', 'PyApi.lean'),
 ]
 
 
